@@ -52,8 +52,11 @@ def configs(tier, rng):
            dict(fam="qbits", bits=8, integer=2, alpha="auto", scale_axis=None, eps=None, emin=None, emax=None, pts=0.25)]
   for bits, integer, alpha, kn, sym in itertools.product([2, 4, 8], [0, 2], ["auto", "auto_po2"], [1, 0], [1, 0]):
     cfgs.append(dict(fam="qlin", bits=bits, integer=integer, alpha=alpha, kn=kn, sym=sym))
+  # quantized_linear with an explicit scale axis (one scale per slice of THAT axis)
+  for bits, alpha, ax in itertools.product([4, 6], ["auto", "auto_po2"], [0, 1]):
+    cfgs.append(dict(fam="qlin", bits=bits, integer=0, alpha=alpha, kn=1, sym=1, scale_axis=ax))
   if tier == "quick":
-    must = [i for i, c in enumerate(cfgs) if c.get("emin") is not None or c.get("emax") is not None]
+    must = [i for i, c in enumerate(cfgs) if c.get("emin") is not None or c.get("emax") is not None or (c["fam"] == "qlin" and c.get("scale_axis") is not None)]
     rest = [i for i in range(len(cfgs)) if i not in must]
     idx = list(rng.choice(rest, size=22, replace=False)) + must
     cfgs = [cfgs[i] for i in sorted(idx)]
@@ -70,7 +73,7 @@ def build(c):
     pts = None if c["pts"] is None else np.array([c["pts"]], dtype=np.float32)
     return Q.quantized_bits(c["bits"], c["integer"], 1, alpha=c["alpha"], scale_axis=c["scale_axis"], elements_per_scale=c["eps"],
                             min_po2_exponent=c["emin"], max_po2_exponent=c["emax"], post_training_scale=pts)
-  return Q.quantized_linear(c["bits"], c["integer"], c["sym"], keep_negative=bool(c["kn"]), alpha=c["alpha"])
+  return Q.quantized_linear(c["bits"], c["integer"], c["sym"], keep_negative=bool(c["kn"]), alpha=c["alpha"], scale_axis=c.get("scale_axis"))
 
 
 def opt(v):
@@ -110,7 +113,7 @@ def main():
         continue
       sc_raw = np.asarray(q.scale if c["fam"] == "qbits" else q.quantization_scale, dtype=np.float32)
       # one scale per output channel (documented shape), unless blocks / a frozen scalar are configured
-      if x.ndim >= 2 and c["fam"] == "qbits" and c["pts"] is None and not c.get("eps") and sc_raw.ndim == x.ndim:
+      if x.ndim >= 2 and (c["fam"] == "qbits" and c["pts"] is None and not c.get("eps") or c["fam"] == "qlin") and sc_raw.ndim == x.ndim:
         ax = x.ndim - 1 if c.get("scale_axis") is None else c["scale_axis"]
         want = tuple(x.shape[i] if i == ax else 1 for i in range(x.ndim))
         if tuple(sc_raw.shape) != want:
